@@ -123,6 +123,11 @@ CHECKS = {
               "parameters x delivery {one chunk, 1 byte, 7 bytes, 1460 bytes per call} x 10 personalities; k on a doubling ladder 64..4096 (thorough ..16384). Work = executed "
               "basic blocks of libhtp + in-tree LZMA (trace-pc-guard callbacks) inside data calls and close: deterministic. Verdict: marginal work per added byte grows >= 1.6x "
               "on each of the last two doublings. Every shard first walks its slice of the pattern table, so each pattern is measured on every run; the rest is sampled. "
+              "Second campaign, generic pump: the unit is ANY byte range of 13 rich seed exchanges (query/cookies/folding, urlencoded, multipart with file, chunked with extensions and trailers, "
+              "gzip, pipeline with HEAD/204/304/close-delimited, absolute URI + Basic, Digest, Expect/100, CONNECT + tunnel bytes, HTTP/0.9, LF-only oddities, TE+CL, junk before the status line): "
+              "1-6 bytes, a delimiter-terminated token, or 1-3 whole lines, optionally with a per-copy counter (distinct names), inside a head or a body whose Content-Length is recomputed; "
+              "in-line units are laddered so that the line stays under the hard field limit. A generic failure whose header table (transaction or multipart part) really holds >= k/2 entries is classed "
+              "'header_table_grows_distinct_names' (mechanism of known finding D15a); any other generic failure is a violation. "
               "Non-trivial = ladder whose top rung costs >= 20x the bottom rung (the unit really was parsed k times); one evaluation = one rung"),
         assumptions=["libc (memcpy/realloc) and zlib are outside the meter", "teardown (destroying a connection holding many transactions) is not metered: outside the listed constructs",
                      "the maximum work per byte seen by the coverage-guided fuzzer (quantifier text) is not measured: fuzz_stream is not built against the cost variant (stated in DESIGN.md)"],
